@@ -43,7 +43,11 @@ def random_value(rng, name, cur):
     if name == "fft_settings":
         return [None, {"n": None}, {"n": 4096}, {}][int(rng.integers(0, 4))]
     if name == "smoothing":
-        fc = [np.geomspace(0.2, 20, 7), [0.5, 1.0, 2.0], (1.0, 3.0, 9.0)][int(rng.integers(0, 3))]
+        # legal centre frequencies: exact and *nearly* geometric vectors (rounded to 6 decimals as copied from another program's output, passed through
+        # single precision, generated as f0*r**k) must come back element by element
+        g = np.geomspace(0.2, 20, 7)
+        fc = [g, [0.5, 1.0, 2.0], (1.0, 3.0, 9.0), np.round(np.geomspace(0.3, 25, 9), 6), np.geomspace(0.2, 20, 8).astype(np.float32).astype(float),
+              0.4 * 1.37 ** np.arange(8)][int(rng.integers(0, 6))]
         return dict(operator=str(rng.choice(["konno_and_ohmachi", "parzen", "log_rectangular"])), bandwidth=float(rng.choice([40., 0.5, 0.1])), center_frequencies_in_hz=fc)
     if name == "handle_dissimilar_time_steps_by":
         return str(rng.choice(["frequency_domain_resampling", "keeping_smallest_time_step", "keeping_majority_time_step"]))
